@@ -22,6 +22,9 @@ PATHS = ["S", "S", "O.S", "L.S", "L.L.S", "O.L.S", "D.S", "D.L.S", "L.D.S", "L.O
 def value_for(path, P, rng, allow_empty=True):
     tok, rest = path[0], path[1:]
     if tok == "S":
+        if rng.random() < 0.04:
+            # a string today's parsers reject (decimal comma, padded booleans, ...): the field is then not pseudo-typed at all
+            return rng.choice(gen.NEAR_MISS_STR)
         return rng.choice(PV[P])
     if tok == "O":
         return None if rng.random() < 0.4 else value_for(rest, P, rng)
@@ -71,7 +74,8 @@ def gen_cases_for(seed_, n):
         cases.append({"i": i, "models": [["Root", samples]],
                       "opts": {"framework": fw, "flat": rng.random() < 0.7, "merge": [["exact"]], "max_literals": rng.choice([0, 10]),
                                "convert_unicode": True, "registry": reg, "dkf": [], "dkr": [r"k\d+"], "post_init_converters": conv,
-                               "meta": rng.random() < 0.5}})
+                               "meta": rng.random() < 0.5,
+                               "decorator_kwargs": rng.choice([None] * 6 + [{"slots": True}, {"slots": True}, {"repr": False}])}})
     # general workload as well (construction must never raise)
     for i in range(n // 4):
         rng = rng_for(PROP, "gen", seed_, i)
